@@ -103,7 +103,7 @@ fn spec(ctx: &Ctx, w: i64, counters: u64) -> SeqSpec {
         world: Default::default(),
         prefix: vec![],
         alphabet,
-        depth: if quick { 2 } else { 3 },
+        depth: if quick { 3 } else { 3 },
         allow: Some(Arc::new(|_h, present, a| match a {
             Op::Upsert { k, value: false, .. } => present.contains(k),
             _ => true,
